@@ -285,6 +285,13 @@ void reb_read_simulationarchive_from_stream_with_messages(struct reb_simulationa
                     if (debug) printf("SA Error. Error while reading next blob.\n");
                     next_blob_is_corrupted = 1;
                     *warnings |= REB_SIMULATION_BINARY_WARNING_CORRUPTFILE;
+                    if (i==0){
+                        // The write of the first snapshot was interrupted before its (all zero) trailer was complete.
+                        // Later snapshots are rejected in this situation by the offset check below. Do the same here:
+                        // reb_simulation_save_to_file() cannot append to such a file, so it must not be presented as a valid archive.
+                        read_error = 1;
+                        break;
+                    }
                 }
                 if (i>0){
                     size_t blobsize;
